@@ -237,6 +237,13 @@ def regen():
 # Generic helpers for the real side
 # ------------------------------------------------------------------------------------------------------------------
 
+def fast_tracer():
+    """Signal/ClockDomain names are irrelevant to C20 and the dis-based name tracer of envshim costs ~5 ms per Signal
+    (80 % of a request's run time): switch name extraction off in this process (harness side only)."""
+    import migen.fhdl.tracer as tracer
+    tracer.get_var_name = lambda frame: None
+
+
 def status_of(exc):
     if isinstance(exc, ValueError):
         return "rejected"
@@ -292,6 +299,7 @@ class Flags:
     def __init__(self):
         self.borderline = False
         self.why = None
+        self.count = 0
 
     def cmp_le(self, a, b, exact_ctx, what=""):
         """exact a <= b ; flags when a float evaluation of the same comparison could differ."""
@@ -306,6 +314,7 @@ class Flags:
         if not self.borderline:
             self.why = why
         self.borderline = True
+        self.count += 1
 
 
 def is_int(x):
@@ -484,9 +493,12 @@ class Xilinx:
         first = None
         robust = None
         ma, mb, ms, mk = d["mults"]
-        mults = [F(ma + i * ms, mk) for i in range((mb - ma + ms - 1) // ms)][::-1]
+        mults = range((mb - ma + ms - 1) // ms)
         for divclk in range(*d["divclk"]):
-            for mult in mults:
+            # multipliers (descending) whose VCO can be inside the window, plus one neighbour on each side
+            i_hi = min(len(mults) - 1, math.floor((hi * divclk / clkin * mk - ma) / ms) + 1)
+            i_lo = max(0, math.ceil((lo * divclk / clkin * mk - ma) / ms) - 1)
+            for mult in (F(ma + i * ms, mk) for i in range(i_hi, i_lo - 1, -1)):
                 vco = clkin * mult / divclk
                 if first is None:
                     in_win = fl.cmp_le(lo, vco, win_exact, "vco>=min") and fl.cmp_le(vco, hi, win_exact, "vco<=max")
@@ -499,6 +511,7 @@ class Xilinx:
                 for n, (f, p, m) in enumerate(outs):
                     dlo, dhi = self.window(d, vco, f, m)
                     ok_n, rob_n = False, False
+                    nflag = fl.count
                     for r in self.ranges_for(d, n):
                         g = grid_first_ge(r, dlo)
                         if g is not None and (dhi is None or g <= dhi):
@@ -522,6 +535,8 @@ class Xilinx:
                             rob_n = True          # exact hit at margin 0 with integer frequencies is float-exact
                     all_ok = all_ok and ok_n
                     all_rob = all_rob and rob_n
+                    if not ok_n and nflag == fl.count:
+                        break            # robustly invalid output: the pair is invalid whatever the others do
                 if all_rob and robust is None:
                     robust = (divclk, mult)
                 if all_ok and first is None:
@@ -578,39 +593,62 @@ class Xilinx:
         return []
 
     # --- generators
+    WEIGHTS = {"S6PLL": 10, "S6DCM": 5, "S7PLL": 20, "S7MMCM": 16, "USPLL": 10, "USMMCM": 12, "USPPLL": 12, "USPMMCM": 8}
+
     def gen(self, rng, dev=None):
-        d = self.devs[dev] if dev else rng.choice(list(self.devs.values()))
-        vm = 0.0 if rng.random() < 0.85 else rng.choice([0.01, 0.05, 0.1, 0.25])
+        if dev is None:
+            cls = rng.choices(list(self.WEIGHTS), weights=list(self.WEIGHTS.values()))[0]
+            dev = "%s:%d" % (cls, rng.choice(XILINX_GRADES))
+        d = self.devs[dev]
+        usp = d["usp"]
+        vm = 0.0 if rng.random() < 0.9 else rng.choice([0.01, 0.05, 0.1, 0.25])
         clkin = gen_clkin(rng, 10e6, 800e6) if not d["name"].startswith("S6DCM") else gen_clkin(rng, 1e6, 300e6)
+        if usp and clkin < 50e6:
+            clkin = type(clkin)(clkin * 8)
         nmax = d["nmax"]
         k = 1 if nmax == 1 else min(nmax, rng.choice([1, 1, 1, 2, 2, 2, 3, 3, 4, 5, 6, 7]))
         lo, hi = d["vco"][0] * (1 + F(vm)), d["vco"][1] * (1 - F(vm))
-        # pick a VCO reachable from clkin (so that most requests are satisfiable)
+        # kind of request: satisfiable by construction / one output on a margin edge / arbitrary (mostly refused)
+        r = rng.random()
+        kind = "sat" if r < (0.98 if usp else 0.80) else "edge" if r < (1.0 if usp else 0.90) else "any"
+        if kind != "sat" and usp:
+            # a USPMMCM refusal walks ~10^7 exact divider tests in the model (5-30 s): keep them few and small
+            k = 1
+            clkin = type(clkin)(rng.choice([400e6, 500e6, 600e6, 625e6, 750e6, 800e6]))
         vco = None
         ma, mb, ms, mk = d["mults"]
-        for _ in range(40):
-            divclk = rng.choice([1, 1, 1, 2, 3, 4, 5, rng.randrange(*d["divclk"])])
-            mult = F(rng.randrange(ma, mb, ms), mk)
-            v = F(clkin) * mult / divclk
-            if lo <= v <= hi:
-                vco = v
+        for _ in range(60):
+            divclk = rng.choice([1, 1, 1, 1, 1, 2] if usp else [1, 1, 1, 2, 3, 4, 5, rng.randrange(*d["divclk"])])
+            i_lo = max(0, math.ceil((lo * divclk / F(clkin) * mk - ma) / ms))
+            i_hi = min((mb - ma + ms - 1) // ms - 1, math.floor((hi * divclk / F(clkin) * mk - ma) / ms))
+            if i_lo <= i_hi:
+                vco = F(clkin) * F(ma + rng.randrange(i_lo, i_hi + 1) * ms, mk) / divclk
                 break
+        if vco is None and usp:
+            return self.gen(rng, dev)
         outs = []
+        edge_at = rng.randrange(k)
         for n in range(k):
             m = rng.choice([0, 1e-6, 1e-3, 1e-2])
             p = rng.choice([0, 0, 0, 90, 180, 270, 45, 22.5, 135.0, -90])
-            mode = rng.random()
-            if vco is not None and mode < 0.8:
+            if vco is not None and (kind != "any" or rng.random() < 0.5):
                 rs = self.ranges_for(d, n)
-                r = rng.choice(rs)
-                cnt = (r[1] - r[0] + r[2] - 1) // r[2]
-                dv = F(r[0] + rng.randrange(min(cnt, rng.choice([8, 32, cnt]))) * r[2], r[3])
+                rr = rng.choice(rs)
+                cnt = (rr[1] - rr[0] + rr[2] - 1) // rr[2]
+                dv = F(rr[0] + rng.randrange(min(cnt, rng.choice([8, 32, cnt]))) * rr[2], rr[3])
                 f = vco / dv
-                u = rng.choice([0, 0, 0, 0.5, -0.5, 0.999, -0.999, 1, -1, 1.001, -1.001, 2.5, -2.5])
-                f = f * (1 + F(u) * F(m)) if u else f
-                f = float(f)
-                if rng.random() < 0.6:
-                    f = float(round(f)) or 1.0
+                if kind == "edge" and n == edge_at:
+                    u = rng.choice([1, -1, 1.001, -1.001, 0.9999, -0.9999, 2.5, -2.5])
+                else:
+                    u = rng.choice([0, 0, 0, 0.5, -0.5, 0.9, -0.9])
+                if m == 0 and not is_int(f) and (usp or rng.random() < 0.9):
+                    m = 1e-6                                  # margin 0 is only float-exact for integer-Hz targets
+                fx = f * (1 + F(u) * F(m))
+                f = float(fx)
+                if m != 0 and abs(u) <= 0.9 and rng.random() < 0.6:
+                    f = float(round(f)) or 1.0           # integer-Hz request (stays inside the margin)
+                elif m == 0 and is_int(fx):
+                    f = float(fx)
             else:
                 f = rng.choice([25e6, 50e6, 100e6, 125e6, 133.333e6, 148.5e6, 200e6, 300e6, 400e6, 48e6, 12.288e6, 74.25e6,
                                 float(rng.randrange(5_000_000, 700_000_000))])
@@ -635,3 +673,380 @@ def gen_clkin(rng, lo, hi):
         f = float(rng.randrange(int(lo) // 1000, int(hi) // 1000 + 1) * 1000)
     f = min(max(f, float(lo)), float(hi))
     return int(f) if rng.random() < 0.25 else f
+
+
+def py_round(x):
+    """round-half-even of an exact rational (Python round on an exact value)."""
+    x = F(x)
+    fl = math.floor(x)
+    r = x - fl
+    if r < F(1, 2):
+        return fl
+    if r > F(1, 2):
+        return fl + 1
+    return fl if fl % 2 == 0 else fl + 1
+
+
+# ------------------------------------------------------------------------------------------------------------------
+# Lattice ECP5
+# ------------------------------------------------------------------------------------------------------------------
+
+class Ecp5:
+    fam = "ecp5"
+    N2L = {0: "P", 1: "S", 2: "S2", 3: "S3"}
+
+    def __init__(self, T):
+        self.d = T["ecp5"]
+
+    def lean_line(self, c):
+        outs = " ".join("%s %s %s %d" % (qs(f), qs(p), qs(m), int(dpa)) for f, p, m, dpa in c["outs"])
+        return "ecp5 %s %d %d %s" % (qs(c["clkin"]), int(c["dpa_en"]), len(c["outs"]), outs)
+
+    def real(self, c):
+        from migen import Signal
+        from litex.soc.cores.clock.lattice_ecp5 import ECP5PLL
+        try:
+            o = ECP5PLL()
+            if c["dpa_en"]:
+                o.expose_dpa()
+            o.register_clkin(Signal(), c["clkin"])
+            for i, (f, p, m, dpa) in enumerate(c["outs"]):
+                o.create_clkout(mk_cd(i), f, phase=p, margin=m, with_reset=False, uses_dpa=bool(dpa))
+            cfg = finalize_capture(o)
+        except Exception as e:
+            return {"status": status_of(e), "exc": repr(e)}
+        nd = len(o.clkouts)
+        divs = [cfg["clko%d_div" % n] for n in range(nd)]
+        P = instance_params(o, ("EHXPLLL",)) or {}
+        per = []
+        for n in range(4):
+            l = self.N2L[n]
+            if ("CLKO%s_DIV" % l) in P:
+                per.append((n, P.get("CLKO%s_DIV" % l), P.get("CLKO%s_FPHASE" % l), P.get("CLKO%s_CPHASE" % l),
+                            P.get("CLKO%s_ENABLE" % l)))
+        return {"status": "ok", "clki": cfg["clki_div"], "fb": cfg["clkfb_div"], "clkfb": cfg["clkfb"], "vco": F(cfg["vco"]),
+                "divs": divs, "freqs": [F(cfg["clko%d_freq" % n]) for n in range(len(c["outs"]))],
+                "P": {"CLKI_DIV": P.get("CLKI_DIV"), "CLKFB_DIV": P.get("CLKFB_DIV"), "FEEDBK_PATH": P.get("FEEDBK_PATH"),
+                      "per": per}}
+
+    def parse(self, c, line):
+        if line == "none":
+            return {"status": "rejected"}
+        w = line.split()
+        if w[0] != "some":
+            return {"status": "bad:" + line[:60]}
+        clki, fb, clkfb = int(w[1]), int(w[2]), int(w[3])
+        vco = F(int(w[4]), int(w[5]))
+        k = int(w[6])
+        per = [(int(w[7 + 3 * i]), int(w[8 + 3 * i]), int(w[9 + 3 * i])) for i in range(k)]
+        return {"status": "ok", "clki": clki, "fb": fb, "clkfb": clkfb, "vco": vco, "divs": [x[0] for x in per], "per": per}
+
+    def compare(self, c, real, model):
+        if real["status"] != model["status"]:
+            return "status real=%s model=%s" % (real["status"], model["status"])
+        if real["status"] != "ok":
+            return None
+        for k in ("clki", "fb", "clkfb", "divs"):
+            if real[k] != model[k]:
+                return "%s real=%s model=%s" % (k, real[k], model[k])
+        if not rel_close(real["vco"], model["vco"]):
+            return "vco real=%s model=%s" % (float(real["vco"]), float(model["vco"]))
+        rp = [(dv, fp, cp) for (_, dv, fp, cp, _) in real["P"]["per"]]
+        if rp != model["per"]:
+            return "instance parameters (DIV,FPHASE,CPHASE) real=%s model=%s" % (rp, model["per"])
+        if real["P"]["CLKI_DIV"] != model["clki"] or real["P"]["CLKFB_DIV"] != model["fb"] or \
+                real["P"]["FEEDBK_PATH"] != "INT_O" + self.N2L.get(model["clkfb"], "?"):
+            return "instance parameters CLKI_DIV/CLKFB_DIV/FEEDBK_PATH real=%s" % (real["P"],)
+        return None
+
+    def oracle(self, c, real):
+        d = self.d
+        clkin = F(c["clkin"])
+        outs = [(F(f), F(p), F(m), bool(dpa)) for f, p, m, dpa in c["outs"]]
+        k = len(outs)
+        dpa_en = bool(c["dpa_en"])
+        nmax = d["nmax"]
+        vmin, vmax = d["vco"]
+        pmin, pmax = d["pfd"]
+        olo, ohi = d["clko"]
+        fl = Flags()
+        first = None           # first exactly valid (clki, ofb, fb) in the code's search space
+        robust_code = None     # robustly valid config inside the code's search space (feedback = first dividers / spare)
+        robust_any = None      # robustly valid config with feedback from any valid divider
+        need_robust = real["status"] != "ok"
+        for clki in range(*d["clki"]):
+            exact_ctx = is_int(clkin) and int(clkin) % clki == 0 and all(is_int(f) for f, _, _, _ in outs)
+            pfd = clkin / clki
+            if first is None:
+                pfd_ok = fl.cmp_le(pmin, pfd, exact_ctx, "pfd>=min") and fl.cmp_le(pfd, pmax, exact_ctx, "pfd<=max")
+            else:
+                pfd_ok = pmin <= pfd <= pmax
+            if not pfd_ok:
+                continue
+            kmin, kmax = math.ceil(vmin / pfd), math.floor(vmax / pfd)
+            for ofb in range(olo, ohi):
+                f_lo = max(d["clkfb"][0], ceil_div(kmin, ofb) - 1)
+                f_hi = min(d["clkfb"][1] - 1, kmax // ofb + 1)
+                for fb in range(f_lo, f_hi + 1):
+                    vco = pfd * fb * ofb
+                    if first is None:
+                        in_win = fl.cmp_le(vmin, vco, exact_ctx, "vco>=min") and fl.cmp_le(vco, vmax, exact_ctx, "vco<=max")
+                    else:
+                        in_win = vmin <= vco <= vmax
+                    if not in_win:
+                        continue
+                    rob = vmin * (1 + SLACK) <= vco <= vmax * (1 - SLACK) and pmin * (1 + SLACK) <= pfd <= pmax * (1 - SLACK)
+                    all_ok, all_rob = True, rob
+                    fb_first, fb_first_rob, fb_any_rob = False, False, False
+                    for n, (f, p, m, dpa) in enumerate(outs):
+                        dlo, dhi = divider_window(vco, f, m)
+                        nflag = fl.count
+                        g = max(olo, math.ceil(dlo))
+                        ok_n = g < ohi and (dhi is None or g <= dhi)
+                        if first is None:
+                            for x in {math.floor(dlo), math.ceil(dlo)} | ({math.floor(dhi), math.ceil(dhi)} if dhi is not None else set()):
+                                if olo <= x < ohi:
+                                    for t in (dlo, dhi):
+                                        if t is None:
+                                            continue
+                                        if x == t:
+                                            if not exact_ctx or m != 0:
+                                                fl._flag("divider on a margin edge")
+                                        elif abs(x - t) <= SLACK * t:
+                                            fl._flag("divider within 2^-40 of a margin edge")
+                        g2 = max(olo, math.ceil(dlo * (1 + SLACK)))
+                        rob_n = g2 < ohi and (dhi is None or g2 <= dhi * (1 - SLACK))
+                        if not rob_n and m == 0 and exact_ctx and ok_n and g == dlo:
+                            rob_n = True
+                        usable = not (dpa and dpa_en)
+                        if ok_n and g == ofb and usable:
+                            fb_first = True
+                        if rob_n and g2 == ofb and usable and g2 == g:
+                            fb_first_rob = True
+                        if usable and (dlo * (1 + SLACK) <= ofb and (dhi is None or ofb <= dhi * (1 - SLACK))):
+                            fb_any_rob = True
+                        all_ok = all_ok and ok_n
+                        all_rob = all_rob and rob_n
+                        if not ok_n and nflag == fl.count:
+                            break
+                    spare = k < nmax
+                    if all_ok and (fb_first or spare) and first is None:
+                        first = (clki, ofb, fb)
+                    if all_rob and (fb_first_rob or spare) and robust_code is None:
+                        robust_code = (clki, ofb, fb)
+                    if all_rob and (fb_any_rob or spare) and robust_any is None:
+                        robust_any = (clki, ofb, fb)
+                    if first is not None and (not need_robust or robust_code is not None):
+                        break
+                if first is not None and (not need_robust or robust_code is not None):
+                    break
+            if first is not None and (not need_robust or robust_code is not None):
+                break
+        viol = []
+        region = None
+        if real["status"] == "ok":
+            clki, fb, cf, divs = real["clki"], real["fb"], real["clkfb"], real["divs"]
+            if not (d["clki"][0] <= clki < d["clki"][1]):
+                viol.append("clki_div %s outside declared range" % clki)
+            if not (d["clkfb"][0] <= fb < d["clkfb"][1]):
+                viol.append("clkfb_div %s outside declared range" % fb)
+            for n, dv in enumerate(divs):
+                if not (olo <= dv < ohi):
+                    viol.append("clko%d_div %s outside declared range" % (n, dv))
+            if not (len(divs) in (k, k + 1) and len(divs) <= nmax and 0 <= cf < len(divs)):
+                viol.append("feedback output index %s / %d outputs" % (cf, len(divs)))
+            else:
+                if cf < k and outs[cf][3] and dpa_en:
+                    viol.append("feedback taken from a dynamically phase-adjusted output")
+                pfd = clkin / clki
+                if not (pmin * (1 - SLACK) <= pfd <= pmax * (1 + SLACK)):
+                    viol.append("PFD %s Hz outside declared range" % float(pfd))
+                vco = pfd * fb * divs[cf]
+                if not (vmin * (1 - SLACK) <= vco <= vmax * (1 + SLACK)):
+                    viol.append("VCO recomputed from the returned dividers = %s Hz outside [%s, %s]" % (float(vco), float(vmin), float(vmax)))
+                if not rel_close(vco, real["vco"]):
+                    viol.append("reported vco %s differs from clkin/clki*clkfb_div*clko[fb]_div = %s" % (float(real["vco"]), float(vco)))
+                for n, (f, p, m, dpa) in enumerate(outs):
+                    if divs[n] > 0 and not (abs(vco / divs[n] - f) <= f * m + SLACK * f):
+                        viol.append("clko%d: %s Hz vs requested %s Hz margin %s" % (n, float(vco / divs[n]), float(f), float(m)))
+            # instance parameters
+            P = real["P"]
+            if P["CLKI_DIV"] != clki or P["CLKFB_DIV"] != fb or P["FEEDBK_PATH"] != "INT_O" + self.N2L.get(cf, "?"):
+                viol.append("CLKI_DIV/CLKFB_DIV/FEEDBK_PATH %s do not equal the configuration" % (P,))
+            if [x[0] for x in P["per"]] != list(range(len(divs))):
+                viol.append("enabled outputs %s != configured outputs" % [x[0] for x in P["per"]])
+            else:
+                for (n, dv, fp, cp, en) in P["per"]:
+                    p = outs[n][1] if n < k else F(0)
+                    want = py_round(p * divs[n] / 45)
+                    if dv != divs[n] or en != "ENABLED" or not (0 <= fp < 8) or 8 * (cp - (dv - 1)) + fp != want:
+                        viol.append("CLKO%s DIV/FPHASE/CPHASE = %s/%s/%s for div %s phase %s" % (self.N2L[n], dv, fp, cp, divs[n], float(p)))
+        elif real["status"] == "rejected":
+            if robust_code is not None:
+                viol.append("refused although clki=%s clkofb=%s clkfb_div=%s satisfies the request" % robust_code)
+            elif robust_any is not None:
+                region = "C20-ecp5-4out-first-divider"
+        else:
+            viol.append("unexpected exception " + real.get("exc", ""))
+        return viol, fl.borderline, fl.why, first, region
+
+    def gen(self, rng):
+        d = self.d
+        clkin = gen_clkin(rng, float(d["clki_freq"][0]), float(d["clki_freq"][1]))
+        k = rng.choice([1, 1, 2, 2, 3, 3, 4, 4])
+        dpa_en = rng.random() < 0.15
+        vco = None
+        for _ in range(60):
+            clki = rng.choice([1, 1, 1, 2, 3, 4, 5, 6, rng.randrange(1, 41)])
+            pfd = F(clkin) / clki
+            if not (d["pfd"][0] <= pfd <= d["pfd"][1]):
+                continue
+            K = rng.randrange(math.ceil(d["vco"][0] / pfd), math.floor(d["vco"][1] / pfd) + 1) if \
+                math.ceil(d["vco"][0] / pfd) <= math.floor(d["vco"][1] / pfd) else None
+            if K:
+                vco = pfd * K
+                break
+        outs = []
+        flo, fhi = d["clko_freq"]
+        r = rng.random()
+        kind = "sat" if r < 0.82 else "edge" if r < 0.92 else "any"
+        edge_at = rng.randrange(k)
+        for n in range(k):
+            m = rng.choice([0, 1e-6, 1e-3, 1e-2])
+            p = rng.choice([0, 0, 0, 90, 180, 270, 45, 22.5, 135.0, 30, 60])
+            if vco is not None and (kind != "any" or rng.random() < 0.5):
+                dv = rng.choice([rng.randrange(1, 129), rng.randrange(1, 17), rng.randrange(1, 9)])
+                while vco / dv > fhi:
+                    dv += 1
+                f = vco / dv
+                if kind == "edge" and n == edge_at:
+                    u = rng.choice([1, -1, 1.001, -1.001, 0.9999, -0.9999, 2.5, -2.5])
+                else:
+                    u = rng.choice([0, 0, 0, 0.5, -0.5, 0.9, -0.9])
+                if m == 0 and not is_int(f) and rng.random() < 0.9:
+                    m = 1e-6
+                fx = f * (1 + F(u) * F(m))
+                f = float(fx)
+                if m != 0 and abs(u) <= 0.9 and rng.random() < 0.6:
+                    f = float(round(f))
+            else:
+                f = rng.choice([25e6, 50e6, 100e6, 125e6, 133.333e6, 148.5e6, 200e6, 300e6, 400e6, 48e6, 12.288e6, 74.25e6,
+                                float(rng.randrange(3_125_000, 400_000_001))])
+            f = min(max(f, float(flo)), float(fhi))
+            outs.append((f, p, m, int(rng.random() < 0.3)))
+        return {"fam": "ecp5", "clkin": clkin, "dpa_en": dpa_en, "outs": outs}
+
+
+# ------------------------------------------------------------------------------------------------------------------
+# Running cases (worker pool; each worker owns a Lean driver process)
+# ------------------------------------------------------------------------------------------------------------------
+
+_FAMS = None
+
+
+def fams():
+    global _FAMS
+    if _FAMS is None:
+        T = tables()
+        _FAMS = {}
+        for cls in FAMILY_CLASSES:
+            o = cls(T)
+            _FAMS[o.fam] = o
+    return _FAMS
+
+
+def jsonable(x):
+    if isinstance(x, F):
+        return "%d/%d" % (x.numerator, x.denominator) if x.denominator != 1 else int(x)
+    if isinstance(x, dict):
+        return {str(k): jsonable(v) for k, v in x.items()}
+    if isinstance(x, (list, tuple)):
+        return [jsonable(v) for v in x]
+    return x
+
+
+def run_case(fam, c, model_line):
+    """-> record dict (JSON-able)."""
+    import time
+    t0 = time.process_time()
+    real = fam.real(c)
+    t1 = time.process_time()
+    rec = {"case": c, "status": real["status"], "dis": None, "viol": [], "borderline": False, "region": None}
+    try:
+        orc = fam.oracle(c, real)
+    except Exception as e:   # oracle failure is a machinery error, reported as such
+        import traceback
+        rec["error"] = "oracle: " + traceback.format_exc()[-600:]
+        return rec
+    viol, borderline, why, first = orc[0], orc[1], orc[2], orc[3]
+    region = orc[4] if len(orc) > 4 else None
+    if hasattr(fam, "region"):
+        region = fam.region(c, real) or region
+    rec["borderline"], rec["why"], rec["region"] = borderline, why, region
+    rec["t_real"], rec["t_oracle"] = round(t1 - t0, 4), round(time.process_time() - t1, 4)
+    if region is not None:
+        rec["real"] = jsonable(real)
+        return rec                      # known-defect region: counted, not compared
+    rec["viol"] = viol
+    if viol:
+        rec["real"] = jsonable(real)
+    if model_line is not None and not borderline:
+        try:
+            model = fam.parse(c, model_line)
+            dis = fam.compare(c, real, model)
+        except Exception as e:
+            dis = "unparsable model answer %r (%r)" % (model_line[:80], e)
+        if dis is None and first is not None and real["status"] == "ok" and hasattr(fam, "first_key"):
+            if fam.first_key(real) != first:
+                dis = "real config %s is not the first valid one %s (oracle)" % (fam.first_key(real), first)
+        if dis:
+            rec["dis"] = dis
+            rec["real"] = jsonable(real)
+            rec["model"] = model_line
+    return rec
+
+
+def _chunk_worker(args):
+    idx, cases, use_lean = args
+    import envshim
+    envshim.install()
+    fast_tracer()
+    F_ = fams()
+    lines = [F_[c["fam"]].lean_line(c) for c in cases]
+    answers = [None] * len(cases)
+    drv = None
+    if use_lean:
+        from leanproc import LeanDriver
+        drv = LeanDriver("C20")
+        try:
+            answers = drv.call_batch(lines)
+        finally:
+            drv.quit()
+    out = []
+    for c, a in zip(cases, answers):
+        try:
+            out.append(run_case(F_[c["fam"]], c, a))
+        except Exception:
+            import traceback
+            out.append({"case": c, "status": "error", "dis": None, "viol": [], "borderline": False, "region": None,
+                        "error": traceback.format_exc()[-800:]})
+    return idx, out
+
+
+def run_cases(cases, use_lean=True, procs=None, chunk=40):
+    import multiprocessing as mp
+    procs = procs or int(os.environ.get("VERIF_PROCS", "0")) or 6
+    chunks = [(i, cases[i:i + chunk], use_lean) for i in range(0, len(cases), chunk)]
+    if procs <= 1 or len(chunks) <= 1:
+        res = [_chunk_worker(a) for a in chunks]
+    else:
+        with mp.get_context("fork").Pool(min(procs, len(chunks))) as pool:
+            res = pool.map(_chunk_worker, chunks, chunksize=1)
+    out = []
+    for _, recs in sorted(res, key=lambda x: x[0]):
+        out += recs
+    return out
+
+
+Xilinx.first_key = lambda self, real: (real["divclk"], real["mult"])
+FAMILY_CLASSES = [Xilinx, Ecp5]
